@@ -49,3 +49,61 @@ theorem incr_decr_restores (n n' : NodeInfo) (hw : WFNode n) (hv : Valid n) (ws 
   · intro k; rw [d3, d]; simp only [sg, if_true, Bool.false_eq_true, if_false]; omega
 
 end Eru.Book
+
+namespace Eru.Book
+open Eru
+
+/-- the usage rewritten by cobalt's per-plugin rollback -/
+def rewritten (before : NodeRes) : NodeRes := ({} : NodeRes).deepCopy.add before
+
+theorem rewritten_spec (u : NodeRes) (h1 : WF u.cpuMap) (h2 : WF u.numaMemory) :
+    UsageEq (rewritten u) u ∧ WF (rewritten u).cpuMap ∧ WF (rewritten u).numaMemory ∧
+    (∀ k, k ∈ (rewritten u).cpuMap.keys ↔ k ∈ u.cpuMap.keys) := by
+  have e : ({} : NodeRes).deepCopy = {} := rfl
+  unfold rewritten
+  rw [e]
+  refine ⟨⟨?_, ?_, ?_, ?_⟩, WF_mapAdd _ _ WF_nil, WF_mapAdd _ _ WF_nil, ?_⟩
+  · simp [NodeRes.add]
+  · simp [NodeRes.add]
+  · intro k; simp only [NodeRes.add]; rw [get_mapAdd _ _ _ h1]; simp
+  · intro k; simp only [NodeRes.add]; rw [get_mapAdd _ _ _ h2]; simp
+  · intro k
+    simp only [NodeRes.add, mapAdd]
+    have := mem_keys_foldl_add_iff u.cpuMap [] id k
+    simp only [id] at this
+    rw [this]
+    simp [Plan.keys]
+
+/-- cobalt's rollback of the cpumem plugin after another plugin failed: accepted, and the usage
+    is the one before the commit (the node afterwards is again a stored, valid node) -/
+theorem rollbackUsage_spec (n n' : NodeInfo) (hw : WFNode n) (hv : Valid n) (hw' : WFNode n') (hc : n'.capacity = n.capacity) :
+    WFNode (rollbackUsage n.usage n') ∧ Valid (rollbackUsage n.usage n') ∧
+    UsageEq (rollbackUsage n.usage n').usage n.usage ∧ (rollbackUsage n.usage n').capacity = n.capacity := by
+  obtain ⟨hue, hwc, hwn, hkeys⟩ := rewritten_spec n.usage hw.uc hw.un
+  have hm : WFNode { n' with usage := rewritten n.usage } := ⟨hw'.cc, hw'.cn, hwc, hwn⟩
+  have hvn := (valid_iff n hw).1 hv
+  have hvalid : Valid { n' with usage := rewritten n.usage } := by
+    rw [valid_iff _ hm]
+    refine ⟨by simp only [hc]; exact hvn.1, ?_, ?_, ?_⟩
+    · intro hn
+      have := hvn.2.1 (by rw [← hc]; exact hn)
+      unfold NodeInfo.numaTopoErr at this ⊢
+      simp only [hc]; exact this
+    · intro k hk
+      simp only at hk ⊢
+      have := hvn.2.2.1 k ((hkeys k).1 hk)
+      rw [hc, hue.2.2.1 k]; exact this
+    · intro hn id hid
+      simp only at hn hid ⊢
+      have := hvn.2.2.2 (by rw [← hc]; exact hn) id (by rw [← hc]; exact hid)
+      rw [hc, hue.2.2.2 id]; exact this
+  have hstored : setNodeResourceUsage n' (some n.usage.deepCopy) [] false false = .ok { n' with usage := rewritten n.usage } := by
+    unfold setNodeResourceUsage calculateNodeResource
+    simp only [Bool.not_false, if_true]
+    rw [NodeRes.deepCopy_eq n.usage hw.uc hw.un]
+    exact validate_of_valid _ hm hvalid
+  unfold rollbackUsage
+  rw [hstored]
+  exact ⟨hm, hvalid, hue, hc⟩
+
+end Eru.Book
